@@ -245,6 +245,30 @@ fn run_iops<Zx: Z>(wb: i32, data: &[u8], dict: &[u8], ops: &[IOp], env: &IEnv, a
     }
 }
 
+/// abstract (call, status) states of one program for the evidence
+fn record_log(c: &mut Case, log: &[u8]) {
+    let mut p = 0;
+    let mut prev: Option<u64> = None;
+    while p + 21 <= log.len() {
+        let tag = log[p];
+        if tag == 0xE0 {
+            p += 1;
+            continue;
+        }
+        let ret = i64::from_le_bytes(log[p + 1..p + 9].try_into().unwrap());
+        let din = u32::from_le_bytes(log[p + 9..p + 13].try_into().unwrap());
+        let dout = u32::from_le_bytes(log[p + 13..p + 17].try_into().unwrap());
+        let n = u32::from_le_bytes(log[p + 17..p + 21].try_into().unwrap()) as usize;
+        let h = hash_u32s(&[tag as u32, ret as u32, (din > 0) as u32, (dout > 0) as u32]);
+        c.state(h);
+        if let Some(q) = prev {
+            c.trans(q, h);
+        }
+        prev = Some(h);
+        p += 21 + n;
+    }
+}
+
 fn decode_log(log: &[u8]) -> String {
     let mut s = String::new();
     let mut p = 0;
@@ -377,6 +401,15 @@ fn deflate_side(ctx: &mut Ctx, env: &OpEnv) {
                             c.nontrivial();
                         }
                         let a = run_dops_ex::<Rs>(level, method, wb, ml, st, ops, env, false, false, tail_room, false, true, None);
+                        if a.as_ref().map_or(false, |r| r.resetkeep_dirty) {
+                            // deflateResetKeep in the middle of a stream: only safety of zlib-rs is judged (done by the run above)
+                            c.count("not_compared_resetkeep_mid_stream", 1);
+                            return a.map(|_| ());
+                        }
+                        let cut = a.as_ref().ok().and_then(|r| r.f2_cut_at);
+                        if cut.is_some() {
+                            c.count("programs_cut_at_known_finding_F2", 1);
+                        }
                         let sa = ser_drun(&a);
                         c.exec();
                         // programs that prime are pre-screened in a child: zlib-ng overflows its pending buffer (C-level UB)
@@ -388,7 +421,7 @@ fn deflate_side(ctx: &mut Ctx, env: &OpEnv) {
                             run_dops::<Rs>(level, method, wb, ml, st, ops, env, false, false, tail_room, false, None)?;
                         }
                         let sb = if risky {
-                            match in_child(|| ser_drun(&run_dops_ex::<Ng>(level, method, wb, ml, st, ops, env, false, false, tail_room, false, true, None))) {
+                            match in_child(|| ser_drun(&run_dops_full::<Ng>(level, method, wb, ml, st, ops, env, false, false, tail_room, false, true, cut, None))) {
                                 Some(v) => v,
                                 None => {
                                     c.count("skipped_ng_ub", 1);
@@ -396,9 +429,21 @@ fn deflate_side(ctx: &mut Ctx, env: &OpEnv) {
                                 }
                             }
                         } else {
-                            ser_drun(&run_dops_ex::<Ng>(level, method, wb, ml, st, ops, env, false, false, tail_room, false, true, None))
+                            ser_drun(&run_dops_full::<Ng>(level, method, wb, ml, st, ops, env, false, false, tail_room, false, true, cut, None))
                         };
                         c.outcome(hash_bytes(&sa));
+                        if let Ok(ra) = &a {
+                            let mut prev: Option<u64> = None;
+                            for (k, o) in ra.obs.iter().enumerate() {
+                                let kind = if k == 0 { 99 } else { ops.get(k - 1).map_or(98, |op| hash_bytes(op.tag().split('(').next().unwrap_or("").as_bytes()) as u32) };
+                                let h = hash_u32s(&[kind, o.ret as u32, (o.din > 0) as u32, (o.dout > 0) as u32]);
+                                c.state(h);
+                                if let Some(q) = prev {
+                                    c.trans(q, h);
+                                }
+                                prev = Some(h);
+                            }
+                        }
                         if sa != sb {
                             if sb.first() == Some(&0xEE) {
                                 // the reference itself breaks an API obligation on this program (e.g. F2): only zlib-rs is judged
@@ -410,7 +455,7 @@ fn deflate_side(ctx: &mut Ctx, env: &OpEnv) {
                                 }
                                 return Ok(());
                             }
-                            let b = run_dops_ex::<Ng>(level, method, wb, ml, st, ops, env, false, false, tail_room, false, true, None);
+                            let b = run_dops_full::<Ng>(level, method, wb, ml, st, ops, env, false, false, tail_room, false, true, cut, None);
                             // after deflateReset the reference (zlib-ng 2.3.3) can emit a stream without its first block header
                             // (block_open of deflate_quick survives the reset): if the reference's own final stream does not
                             // decode while zlib-rs's does, the reference is not an oracle for this program
@@ -589,6 +634,7 @@ fn inflate_side(ctx: &mut Ctx) {
                                 return Ok(());
                             }
                             c.outcome(hash_bytes(&a));
+                            record_log(c, &a);
                             if a != b {
                                 return Err(format!("status codes / data movement differ from zlib-ng: zlib-rs {} ; zlib-ng {}", decode_log(&a), decode_log(&b)));
                             }
